@@ -456,6 +456,55 @@ void h_addbounce(void)
 }
 #endif
 
+/* ================= addbounce, unbounded (loop contracts; any recipient, any report) ================= */
+#ifdef P_ADDBOUNCE_U
+/* bouncetext is ONE allocation of arbitrary capacity g_cap; the stralloc stubs append without copying contents (whatever the buffer holds
+   stands for "any bytes of the recipient / of the report"), except the bytes the code itself inspects elsewhere (last byte of the report).
+   g_K (arbitrary) replaces "for every position". */
+#include <stdlib.h>
+char *g_bt, *g_rep, *g_rcp; unsigned g_cap, g_np, g_K, g_hdr, g_written; int g_stage, g_wfail, g_ofail, g_closed_b, g_opened_b, g_nl_added;
+static int room(unsigned add) { return (unsigned long)bouncetext.len + add + 16 <= g_cap; }
+int stralloc_copys(stralloc *sa, char *s) { V_ASSERT(sa == &bouncetext && g_stage == 0 && s[0] == '<' && !s[1], "C14: each entry starts with <"); bouncetext.s = g_bt; bouncetext.a = g_cap; bouncetext.len = 0; V_ASSUME(room(1)); g_bt[0] = '<'; bouncetext.len = 1; g_stage = 1; return 1; }
+int stralloc_cats(stralloc *sa, char *s)
+{
+  V_ASSERT(sa == &bouncetext && bouncetext.s == g_bt, "C14: supporting");
+  if (g_stage == 1) { unsigned n = ND_UINT(); V_ASSERT(s == g_rcp, "C14: the entry names the failed recipient (virtual-domain prefix removed by stripvdomprepend)"); V_ASSUME(room(n)); bouncetext.len += n; g_stage = 2; return 1; }
+  if (g_stage == 2) {
+    V_ASSERT(s[0] == '>' && s[1] == ':' && s[2] == '\n' && !s[3], "C14: the recipient is followed by >: and a line end");
+    V_ASSERT(g_bt[0] == '<' && (!(1 <= g_K && g_K < bouncetext.len) || g_bt[g_K] != '\n'), "C14: the recipient part contains no line break (it occupies one line, whatever bytes the address contains)");
+    g_bt[bouncetext.len] = '>'; g_bt[bouncetext.len + 1] = ':'; g_bt[bouncetext.len + 2] = '\n'; bouncetext.len += 3; g_hdr = bouncetext.len; g_stage = 3; return 1; }
+  if (g_stage == 3) { V_ASSERT(s == g_rep, "C14: the failure text follows the recipient line"); V_ASSUME(room(g_np)); bouncetext.len += g_np; if (g_np) g_bt[bouncetext.len - 1] = g_rep[g_np - 1]; g_stage = 4; return 1; }
+  V_ASSERT(s[0] == '\n' && !s[1], "C14: supporting: only line ends are appended after the report");
+  if (g_stage == 4 && !g_nl_added && g_np && g_rep[g_np - 1] != '\n') { g_nl_added = 1; g_bt[bouncetext.len++] = '\n'; return 1; }   /* report did not end its last line */
+  V_ASSERT(g_stage == 4, "C14: supporting: exactly one closing line end after the report");
+  V_ASSERT(bouncetext.len >= g_hdr && g_bt[bouncetext.len - 1] == '\n', "C14: each entry ends with a blank line (the text ends its last line, then one empty line)");
+  V_ASSERT(!(1 <= g_K && g_K + 2 <= bouncetext.len) || !(g_bt[g_K] == '\n' && g_bt[g_K - 1] == '\n'), "C14: whatever bytes the failure text contains, no blank line occurs inside an entry: report text cannot forge a further recipient paragraph");
+  V_ASSERT(g_bt[0] == '<' && g_bt[g_hdr - 3] == '>' && g_bt[g_hdr - 2] == ':' && g_bt[g_hdr - 1] == '\n' && (!(1 <= g_K && g_K + 3 < g_hdr) || g_bt[g_K] != '\n'), "C14: each entry starts with the failed recipient in angle brackets on a line of its own");
+  g_bt[bouncetext.len++] = '\n'; g_stage = 6; return 1;
+}
+size_t strlen(const char *x) { V_ASSERT(x == g_rep, "C14: supporting"); return g_np; }
+int open_append(char *f) { V_ASSERT(g_stage == 6 && f == fn2.s && g_fn2_kind == F_BOUNCE && g_fn2_id == g_id, "C14: the failure is appended to this message's bounce record"); if (ND_BOOL()) return -1; g_opened_b = 1; return 13; }
+unsigned int sleep(unsigned int x) { return 0; }
+ssize_t write(int fd, const void *p, size_t n)
+{
+  V_ASSERT(fd == 13 && (const char *)p == g_bt + g_written && n == bouncetext.len - g_written && n >= 1, "C14: every byte of the entry is written exactly once, in order, despite short writes and failures");
+  if (ND_BOOL()) return ND_BOOL() ? 0 : -1;
+  { unsigned w = ND_UINT(); V_ASSUME(1 <= w && w <= (unsigned)n); g_written += w; return (ssize_t)w; }
+}
+int close(int fd) { g_closed_b = 1; V_ASSERT(g_written == bouncetext.len, "C14: the record is closed only after the whole entry was written"); return 0; }
+void h_addbounce_u(void)
+{
+  unsigned nr = ND_UINT();
+  common_init(); g_written = 0; g_stage = g_wfail = g_ofail = g_closed_b = g_opened_b = g_nl_added = 0; bouncetext.s = 0; bouncetext.len = 0; bouncetext.a = 0;
+  g_cap = ND_UINT(); g_np = ND_UINT(); g_K = ND_UINT(); V_ASSUME(g_cap >= 32 && g_cap <= 0x7fffffff && g_np <= 0x3fffffff && nr <= 0x3fffffff && g_K <= 0x7ffffff0);
+  g_bt = malloc(g_cap); g_rep = malloc((size_t)g_np + 1); g_rcp = malloc((size_t)nr + 1); V_ASSUME(g_bt && g_rep && g_rcp); g_rep[g_np] = 0; g_rcp[nr] = 0;
+  if (g_np) V_ASSUME(g_rep[0] != 0 && g_rep[g_np - 1] != 0);
+  addbounce(g_id, g_rcp, g_rep);
+  V_ASSERT(g_closed_b && g_stage == 6, "C14: supporting: entry written");
+  V_COVER(g_np > 5 && g_nl_added && g_K == 7 && g_hdr == 6); V_COVER(g_np == 0);
+}
+#endif
+
 /* ================= rewrite(): routing (C10) ================= */
 #ifdef P_REWRITE
 #ifndef AB
